@@ -63,11 +63,13 @@ Theorem retry_on_fresh_socket : forall rc M st2 s d i rq r0 more st4,
 Proof. exact Wire_proofs.retry_on_fresh_socket. Qed.
 Print Assumptions retry_on_fresh_socket.
 
-(* release_conn() still closes a connection whose response was not read to its end (source fact), and then: a response
+(* the liveness test at checkout also counts bytes a TLS layer has decrypted but not yet handed over (sock.pending(), which
+   select()/poll() do not see; source fact: the model's checkout looks at everything that has arrived).
+   release_conn() still closes a connection whose response was not read to its end (source fact), and then: a response
    released unread, or after a partial read(k), never sends its connection back to the pool open - the rest of its body,
    pending or still on its way, cannot be taken for the next response *)
-Theorem source_facts : Gen_Read.release_closes_unread = Some true.
-Proof. reflexivity. Qed.
+Theorem source_facts : Gen_Read.release_closes_unread = Some true /\ Gen_Read.checkout_sees_tls_pending = Some true.
+Proof. split; reflexivity. Qed.
 Print Assumptions source_facts.
 
 Theorem released_unread_is_closed : forall t r bl rest c d err it dirty,
